@@ -479,6 +479,16 @@ struct FltRun : Reporter {
                 ieee = ieee && rr[o][k] == e[o][k];
             }
         if (!ieee) ++st.nonfinite_not_ieee;
+        // Mutual consistency and mirror symmetry need no exact value and are demanded everywhere (the raw IEEE
+        // operators satisfy them for NaN and infinities too: with a NaN operand all of <,==,>,<=,>= are false).
+        for (int o = 0; o < 2; ++o)
+            if (rr[o][3] != (rr[o][0] || rr[o][1]) || rr[o][4] != (rr[o][2] || rr[o][1]) || rr[o][5] != !rr[o][1])
+                v(CMP_CONS, "cmp-derived", "<=,>=,!=", o, sx1, sx2, "inconsistent", "derived from <,==,>");
+        static const int mirror[6] = {2, 1, 0, 4, 3, 5};
+        for (int k = 0; k < 6; ++k)
+            if (rr[0][k] != rr[1][mirror[k]])
+                v(ANTISYM, "antisymmetry", CMP_NAMES[k], 0, sx1, sx2, rr[0][k] ? "true" : "false",
+                  "mirror of the swapped comparison");
         spaceship(BoolC<I::SS>{}, q1, q2);
     }
     void pair(R1 x1, R2 x2) {
